@@ -189,11 +189,23 @@ def index_form(d, bv: tuple):
         return index_form(d[1], bv)
     if isinstance(d, tuple) and d and d[0] in ("items", "values") and len(d) == 2:
         T = d[1]
-        if isinstance(T, tuple) and T and T[0] == "dom":
+        a = single_atom(T)
+        if a is not None and a[0] == "dictacc":
+            # a table built in this function: {K(v): V(v) for v in D} - its items are (K(v), V(v)), v in D
+            if len(a) == 2 and len(a[1]) == 1 and a[1][0][0] == "set" and len(a[1][0][3]) == 1 and not a[1][0][3][0][2]:
+                kind, key, val, ctx = a[1][0]
+                d0, l0 = ctx[0][0], ctx[0][1]
+                dom_k, elem_k = index_form(("iter", norm_iter(atom_poly(("seq", key, d0, l0)))), bv)
+                dom_v, elem_v = index_form(("iter", norm_iter(atom_poly(("seq", val, d0, l0)))), bv)
+                if dom_k == dom_v:
+                    return dom_k, (atom_poly(("tuple", (elem_k, elem_v))) if d[0] == "items" else elem_v)
             return d, bv
-        key = subscript(T, bv)
+        Tk = norm_iter(T)
+        if isinstance(Tk, tuple) and Tk and Tk[0] == "dom":
+            return d, bv
+        key = subscript(Tk, bv)
         val = subscript(T, key)
-        return ("range", ZERO, length_of(T)), (atom_poly(("tuple", (key, val))) if d[0] == "items" else val)
+        return ("range", ZERO, length_of(Tk)), (atom_poly(("tuple", (key, val))) if d[0] == "items" else val)
     if isinstance(d, tuple) and d and d[0] == "zip" and len(d) >= 3:
         # zip(A, B, ..) of equally long sequences: index loop over the first with element (A[i], B[i], ..)
         parts = [index_form(x, bv) for x in d[1:]]
@@ -672,6 +684,16 @@ class Translator:
             if ia is not None and ia[0] == "call" and ia[1] == ".keys" and len(ia[2]) == 1:
                 inner = ia[2][0]  # list(d.keys()) = list(d)
             return atom_poly(("call", name, (inner,)))
+        if name == "dict.fromkeys" and len(args) in (1, 2) and not kw:
+            # dict.fromkeys(K, v) = {k: v for k in K}
+            lvl = self._level()
+            dom, elem, lvl = self.domain_elem(args[0], lvl)
+            val = self.tr(args[1]) if len(args) == 2 else atom_poly(("sym", "None"))
+            return atom_poly(("dictacc", (("set", elem, val, ((dom, lvl, ()),)),)))
+        if name == "dict" and len(args) == 1 and not kw:
+            a0d = single_atom(self.tr(args[0]))
+            if a0d is not None and a0d[0] == "dictacc":
+                return self.tr(args[0])     # dict(d) holds the entries of d
         if name == "dict" and len(args) == 1 and not kw:
             inner = single_atom(self.tr(args[0]))
             if inner is not None and inner[0] == "seq":
@@ -682,6 +704,8 @@ class Translator:
                 if body is not None and body[0] == "tuple" and len(body[1]) == 2:
                     # dict((k, v) for ...) = {k: v for ...}
                     return atom_poly(("dictacc", (("set", body[1][0], body[1][1], ((dom, inner[3], conds),)),)))
+        if isinstance(n.func, ast.Attribute) and n.func.attr in ("nodes", "edges") and not args and not kw:
+            return self.tr(n.func)      # networkx: G.nodes() / G.edges() are the views G.nodes / G.edges
         targs = tuple(self.tr(a) for a in args)
         if not isinstance(n.func, (ast.Name, ast.Attribute)):
             # call of a computed callee, e.g. a callback table entry self._arr_fp[i](deg)
@@ -710,16 +734,20 @@ class Translator:
                 return ("range3", a[0], a[1], a[2])
         if isinstance(it, ast.Call) and astx.txt(it.func) in ("list", "tuple", "iter") and len(it.args) == 1 and not it.keywords:
             return self.domain(it.args[0])
-        if isinstance(it, ast.Call) and astx.txt(it.func) == "enumerate" and it.args and not it.keywords:
-            start = self.tr(it.args[1]) if len(it.args) == 2 else ZERO
+        if isinstance(it, ast.Call) and astx.txt(it.func) == "enumerate" and it.args and all(k.arg == "start" for k in it.keywords) and len(it.keywords) <= 1:
+            start = self.tr(it.args[1]) if len(it.args) == 2 else (self.tr(it.keywords[0].value) if it.keywords else ZERO)
             return ("enumerate", self.domain(it.args[0]), start)
         if isinstance(it, ast.Call) and astx.txt(it.func) == "zip" and not it.keywords:
             return ("zip",) + tuple(self.domain(a) for a in it.args)
         if isinstance(it, ast.Call) and isinstance(it.func, ast.Attribute) and it.func.attr == "keys" and not it.args:
             return self.domain(it.func.value)  # iterating d.keys() is iterating d
+        if isinstance(it, ast.Call) and isinstance(it.func, ast.Attribute) and it.func.attr == "nodes" and not it.args and len(it.keywords) == 1 \
+                and it.keywords[0].arg == "data" and isinstance(it.keywords[0].value, ast.Constant) and it.keywords[0].value.value is True:
+            # networkx: for n, attrs in G.nodes(data=True)  =  for n in G.nodes: attrs = G.nodes[n]
+            return ("items", self.tr(it.func))
         if isinstance(it, ast.Call) and isinstance(it.func, ast.Attribute) and it.func.attr in ("items", "values") and not it.args and not it.keywords:
             # for k, v in d.items()  =  for k in d: v = d[k]
-            return (it.func.attr, norm_iter(self.tr(it.func.value)))
+            return (it.func.attr, self.tr(it.func.value))
         return ("iter", norm_iter(self.tr(it)))
 
     def domain_elem(self, it: ast.AST, level: int):
